@@ -641,3 +641,7 @@ for _p in ("C12", "C13"):
 # JOINs of users without memberships fail in the modulator and are rolled back
 PROPS["C14"]["suites"]["drift"] = {"kind": "srv", "args": {"mode": "drift"}, "cases": {"quick": 250, "thorough": 6000},
                                    "projection": PROPS["C14"]["suites"]["srv"]["projection"], "oracle_tags": ["C14"], "depends": STATE_DEPENDS}
+
+
+# C13: no reply shape of the modulator may make the client engine panic (the server's panic hook ends the process): s2m suite's engine-panic oracle
+PROPS["C13"]["suites"]["s2m"] = dict(S2M_SUITE, oracle_tags=["C13"])
